@@ -792,7 +792,8 @@ class Splicer:
                     continue
                 ms = list(re.finditer(o['rx'], txt, re.S))
                 if len(ms) != 1:
-                    self.lose('outlined expression %r in %s (%d matches)' % (o['rx'], fnkey, len(ms)), tags)
+                    if not (len(ms) == 0 and o.get('optional')):
+                        self.lose('outlined expression %r in %s (%d matches)' % (o['rx'], fnkey, len(ms)), tags)
                     continue
                 mm = ms[0]
                 s0 = b0 + len(txt[:mm.start()].encode())
